@@ -97,6 +97,9 @@ func (w *World) CheckInstance(inst *Instance, class string, cc *crashCtx) {
 	}
 	ls, err := inst.ListWallets()
 	if err != nil {
+		if errors.Is(err, ErrCrashed) || w.S.CrashRequested || inst.Dead {
+			return // an injected crash landed inside the check itself: the caller recovers and checks again
+		}
 		w.Violate(class+".wallets-error", "Wallets(): %v", err)
 		return
 	}
